@@ -21,7 +21,7 @@ TEXT = ("Thin claim: the round-trip sentence of C04 (flatten -> diff -> store ->
         "encoding of the path, the path handed down to a field value extends the incoming path by the owner's identifier and the field key, "
         "and array descriptor identifiers are an injective function of (owner, key) - three open "
         "known findings (F10-F12)."
-        " U5: every return of update that can be a success passes through both per-object passes over the submitted document. U6: delete_object records the deletion of a vanished object under nothing but `its winner is neither a deletion nor a marker` (no scan of the other leaves). U7: DataStorage::read_object enters the character-code branch only after the reserved kinds whose digest is itself a character code ('d', 'e': constants read from MIR) were excluded.")
+        " U5: every return of update that can be a success passes through both per-object passes over the submitted document. U6: delete_object records the deletion of a vanished object under nothing but `its winner is neither a deletion nor a marker` (no scan of the other leaves). U7: DataStorage::read_object enters the character-code branch only after the reserved kinds whose digest is itself a character code ('d', 'e': constants read from MIR) were excluded. U8: unflatten looks a string value up as a reference only under starts_with(STRING_ESCAPE_PREFIX) = false (array elements and descriptor keys exempt).")
 TECHNIQUE = 'static analysis over rustc MIR: edge dominance on change tests in update_object/commit, encoder/decoder prefix-table agreement and injectivity of composed identifiers'
 TRUSTED = ["rustc nightly MIR", "effect summaries", "yavomrs returns an empty script for equal sequences"]
 
@@ -291,6 +291,35 @@ def run(facts, res):
                                   "DataStorage::read_object tests is_charcode before %s although the digest of that kind is itself a character code: "
                                   "such a revision reads back as a character object" % missing, m_.loc())
     res.floor("U7", "character-code branches in read_object", n7, 1)
+
+    # ------------------------------------------------------------------ U8 escaped strings are recognised before references are resolved
+    # A string value of a flattened field is either an escaped user string (prefix '!') or a reference. User strings are arbitrary, so
+    # the escape test comes first: every look-up of the string in the collection of objects is reached only under
+    # `starts_with(ESCAPE_PREFIX) = false`. (Elements of a flattened array are references by construction - those look-ups are exempt.)
+    res.rule("U8", "unflatten resolves a string as a reference only after the escape-prefix test failed")
+    uf = facts.body("utils::unflatten")
+    esc = facts.const_str("constants::STRING_ESCAPE_PREFIX")
+    n8 = 0
+    if uf is not None and esc:
+        from ..common import members_of as _mo8
+        for m_ in _mo8(facts, uf):
+            for bi, t in m_.calls():
+                if t.callee is None or t.callee.name not in ("remove", "get", "contains_key", "get_mut", "remove_entry") or "HashMap" not in t.callee.path or len(t.args) < 2:
+                    continue
+                k_ = arg_term(m_, t, 1, 14)
+                if contains_call(k_, "next") or contains_call(k_, "as_str") or contains_call(k_, "iter"):
+                    continue        # an element of a flattened array / a key taken from a descriptor
+                if not any(x[0] == "downcast" or (x[0] == "field" and x[2] in ("0",)) for x in walk(k_)):
+                    continue
+                n8 += 1
+                ok8 = any(l.kind == "call" and callee_name(l.term) == "starts_with" and l.truth is False and
+                          any(y[0] == "const" and y[1] == "str" and y[2] == esc for y in walk(l.term)) for l in lits_of(m_, bi, facts))
+                res.instance("U8", "unflatten: %s of a string value in the object collection only after starts_with(%r) failed: %s" % (t.callee.name, esc, ok8), m_.loc(t.line))
+                if not ok8:
+                    res.violation("U8", "unflatten|reference-before-escape",
+                                  "unflatten looks a string value up as a reference (%s) before testing the escape prefix %r: a user string that equals "
+                                  "'!' + the identifier of a live object is replaced by that object" % (t.callee.name, esc), m_.loc(t.line))
+    res.floor("U8", "reference look-ups of string values in unflatten", n8, 1)
 
     res.rule("U4", "object references are uniquely decodable: no accepted identifier carries a prefix the decoder dispatches on; generated identifiers are injective in the path")
     gi = facts.body("utils::generate_identifier")
